@@ -323,12 +323,27 @@ pub fn check_cloud(bytes: &[u8], ci: usize, proto: &[Rec], meta: &m::CloudMeta, 
     let expect: Vec<Result<RefPoint, ()>> = pts.iter().map(|p| view(p, proto, meta, &o)).collect();
     let any_bad_state = expect.iter().any(|e| e.is_err());
     let mut it = r.pointcloud_simple(pc).map_err(|e| ("pointcloud_simple".to_string(), err_string(&e)))?;
-    it.spherical_to_cartesian(o.s2c);
-    it.cartesian_to_spherical(o.c2s);
-    it.intensity_to_color(o.i2c);
-    it.normalize_intensity(o.ni);
-    it.normalize_color(o.nc);
-    it.apply_pose(o.pose);
+    // A switch that keeps its documented default is either not touched at all (vectors with an even
+    // number of deviations: the default itself is observed) or set to the default explicitly.
+    let explicit = ob.count_ones() % 2 == 1;
+    if ob & 1 != 0 || explicit {
+        it.spherical_to_cartesian(o.s2c);
+    }
+    if ob & 2 != 0 || explicit {
+        it.cartesian_to_spherical(o.c2s);
+    }
+    if ob & 4 != 0 || explicit {
+        it.intensity_to_color(o.i2c);
+    }
+    if ob & 8 != 0 || explicit {
+        it.normalize_intensity(o.ni);
+    }
+    if ob & 16 != 0 || explicit {
+        it.normalize_color(o.nc);
+    }
+    if ob & 32 != 0 || explicit {
+        it.apply_pose(o.pose);
+    }
     let mut n = 0usize;
     loop {
         match it.next() {
